@@ -636,6 +636,96 @@ def check_fill_queue(ctx, rep, rules=('B-acc', 'X-opsites', 'W-iter')):
 
 # -------------------------------------------------------------------------------- divide_segment
 
+def _check_corner_case_1(rep, rule, b, ps):
+    """where divide_segment moves the division point by one ulp, it does so for exactly the configuration that needs it (the point
+    shares x with the left end point of the divided segment and lies below it: the new left event would sort before it), upwards,
+    on x only.  Decided by evaluating every path on concrete coordinates.  Nothing is required when the routine does not move the
+    point at all (whether corner case 1 is then handled elsewhere is not decided here)."""
+    import itertools
+
+    def val(v, env):
+        x = v if v[0] == 'upd' else strip_upd(v)
+        if sym.is_const(x):
+            return x[1]
+        if x[0] == 'c' and isinstance(x[1], tuple) and x[1][0] == 'float':
+            return float(x[1][1])
+        if x[0] == 'param' and x[2] == 'inter':
+            return dict(env['inter'])
+        if x[0] == 'upd':
+            base = val(x[1], env)
+            for (path, nv) in x[2]:
+                if len(path) == 1 and path[0][0] == 'f' and isinstance(base, dict):
+                    base = dict(base)
+                    base[path[0][1]] = val(nv, env)
+                else:
+                    raise ValueError('update of %s' % (path,))
+            return base
+        if x[0] == 'field' and x[2] in ('x', 'y'):
+            inner = strip_upd(x[1])
+            if inner[0] == 'field' and inner[2] == 'point':
+                who = strip_upd(inner[1])
+                while who[0] in ('deref', 'rcptr', 'refval'):
+                    who = strip_upd(who[1])
+                if who[0] == 'param' and who[2] == 'se_l':
+                    return env['l'][x[2]]
+                raise ValueError('point of %s' % show(noepoch(who))[:40])
+            base = val(x[1], env)
+            if isinstance(base, dict):
+                return base[x[2]]
+        if x[0] in ('call', 'pcall') and x[1].endswith('nextafter') and len(x[2]) == 2:
+            return val(x[2][0], env) + (0.25 if val(x[2][1], env) else -0.25)
+        if x[0] == 'op' and x[1] == 'not':
+            return not val(x[2], env)
+        if x[0] == 'op' and len(x) == 4 and x[1] in ('eq', 'ne', 'lt', 'gt', 'le', 'ge', 'bitand', 'bitor'):
+            l_, r_ = val(x[2], env), val(x[3], env)
+            return {'eq': l_ == r_, 'ne': l_ != r_, 'lt': l_ < r_, 'gt': l_ > r_, 'le': l_ <= r_, 'ge': l_ >= r_,
+                    'bitand': bool(l_) and bool(r_), 'bitor': bool(l_) or bool(r_)}[x[1]]
+        raise ValueError(show(noepoch(x))[:60])
+
+    rows = []
+    for p in ps:
+        if p.end != 'return':
+            continue
+        evs = new_events(p)
+        if evs:
+            rows.append((p, evs))
+    moved = any(any(y[0] in ('call', 'pcall') and y[1].endswith('nextafter') for y in sym.walk(d.get('point', ('c', 0)))) for _, evs in rows for d in evs)
+    if not moved:
+        return
+    bad = []
+    n = 0
+    for ix, iy, lx, ly in itertools.product((0, 1, 2), repeat=4):
+        if (ix, iy) == (lx, ly):
+            continue        # a segment is never divided at its own end point (G-endpoint)
+        env = {'inter': {'x': ix, 'y': iy}, 'l': {'x': lx, 'y': ly}}
+        exp = {'x': ix + (0.25 if (ix == lx and iy < ly) else 0), 'y': iy}
+        for (p, evs) in rows:
+            feasible = True
+            for (v, c) in p.conds:
+                try:
+                    r_ = val(noepoch(v), env)
+                except (ValueError, KeyError, TypeError, IndexError):
+                    continue        # a condition on something else (links, the order of the new events)
+                if c[0] == 'eq' and bool(r_) != bool(c[1]):
+                    feasible = False
+                    break
+            if not feasible:
+                continue
+            for d in evs:
+                n += 1
+                try:
+                    got = val(noepoch(d.get('point')), env)
+                except (ValueError, KeyError, TypeError, IndexError) as e_:
+                    got = 'not evaluable: %s' % e_
+                if got != exp:
+                    bad.append((ix, iy, lx, ly, got, exp))
+    rep.rows_compared += n
+    rep.ob(rule, 'corner-case-1-guard', not bad and n > 0,
+           'divide_segment may move the division point only by one ulp upwards in x, and only when it shares x with the left end point and '
+           'lies below it; e.g. inter=(%s,%s), se_l.point=(%s,%s): new events at %s, expected %s (+0.25 stands for the next float)'
+           % (bad[0] if bad else ('-',) * 6), loc=b.loc(b.j['line_lo']), reason='table-row')
+
+
 def check_divide(ctx, rep, rules=('S-divide', 'I-private-bump')):
     R_DIV, R_BUMP = rules
     b, ps = rep.explore(ctx, DIVIDE, R_DIV)
@@ -724,6 +814,7 @@ def check_divide(ctx, rep, rules=('S-divide', 'I-private-bump')):
         if not unmod:
             bump_paths.append((key, show(noepoch(r.get('point')))[:120], r['_line']))
     rep.floor(R_DIV, 'division paths', n, 4)
+    _check_corner_case_1(rep, R_DIV, b, ps)
     if R_BUMP is None:
         return b
     for key, what, line in bump_paths[:1]:
